@@ -148,7 +148,13 @@ type runner struct {
 	events  map[*aucoalesce.Event]int
 	evByID  map[int]*HEvent
 	logByID map[int]*HLogin
+	wd      *hutil.Watchdog // supervises every call into the correlator (nil: unsupervised)
 }
+
+// the process-wide watchdog of the sequential / exhaustive / replay drivers (one driving goroutine)
+var seqWatchdog *hutil.Watchdog
+
+var phaseCall, phaseDump = "call", "state dump"
 
 func tick() time.Time {
 	prev := time.Now()
@@ -162,7 +168,7 @@ func tick() time.Time {
 
 func newRunner(h History) *runner {
 	r := &runner{h: h, enc: &recEnc{budget: h.Budget}, logins: map[*auditevent.AuditEvent]int{},
-		events: map[*aucoalesce.Event]int{}, evByID: map[int]*HEvent{}, logByID: map[int]*HLogin{}}
+		events: map[*aucoalesce.Event]int{}, evByID: map[int]*HEvent{}, logByID: map[int]*HLogin{}, wd: seqWatchdog}
 	var lg *zap.SugaredLogger
 	if h.Debug {
 		lg = hutil.Logger(true)
@@ -276,8 +282,13 @@ func decodeEmitted(m map[string]any, opIdx int) (emitted, error) {
 
 func (r *runner) run() runResult {
 	var res runResult
+	// every call into the correlator, and every dump of its state (which takes the maps' locks), runs under the
+	// watchdog: one that does not return is reported with this history as the failing input (see seqHang)
+	r.wd.Context(&r.h)
 	r.bounds = append(r.bounds, tick())
+	r.wd.Enter(-1, &phaseDump)
 	pre, err := r.dump()
+	r.wd.Leave()
 	if err != nil {
 		res.Err = err.Error()
 		return res
@@ -286,18 +297,30 @@ func (r *runner) run() runResult {
 		var e error
 		preB := r.enc.budget
 		nOut := len(r.enc.out)
+		var rul common.RemoteUserLogin
+		var aev *aucoalesce.Event
 		switch o.Kind {
 		case "login":
-			e = r.tr.RemoteLogin(r.mkLogin(o.Login))
+			rul = r.mkLogin(o.Login)
 		case "audit":
-			e = r.tr.AuditdEvent(r.mkEvent(o.Event))
+			aev = r.mkEvent(o.Event)
+		}
+		r.wd.Enter(i, &phaseCall)
+		switch o.Kind {
+		case "login":
+			e = r.tr.RemoteLogin(rul)
+		case "audit":
+			e = r.tr.AuditdEvent(aev)
 		case "clean_sess":
 			r.tr.DeleteUsersWithoutLoginsBefore(r.bounds[o.Cut])
 		case "clean_logins":
 			r.tr.DeleteRemoteUserLoginsBefore(r.bounds[o.Cut])
 		}
+		r.wd.Leave()
 		r.bounds = append(r.bounds, tick())
+		r.wd.Enter(i, &phaseDump)
 		post, derr := r.dump()
+		r.wd.Leave()
 		if derr != nil {
 			res.Err = fmt.Sprintf("after op %d: %v", i, derr)
 			return res
@@ -316,6 +339,50 @@ func (r *runner) run() runResult {
 		pre = post
 	}
 	return res
+}
+
+// ---------- a call that does not return ----------
+
+const keyDeadlock = "deadlock:call-did-not-return"
+
+func logLevelOf(debug bool) string {
+	if debug {
+		return "DEBUG"
+	}
+	return "default (INFO)"
+}
+
+// describeHang: what the watchdog saw, in words; the failing input is the history (incl. its log level).
+func describeHang(ctx any, call int, phase string, waited time.Duration) (*History, string) {
+	h, _ := ctx.(*History)
+	if h == nil {
+		return nil, fmt.Sprintf("deadlock: a correlator call did not return within %v", waited.Round(time.Second))
+	}
+	op := "the initial state dump"
+	if call >= 0 && call < len(h.Ops) {
+		op = fmt.Sprintf("op %d of %d, %s", call, len(h.Ops), h.Ops[call].String())
+	}
+	what := "call did not return"
+	if phase == phaseDump {
+		what = "the call returned but reading the correlator's maps afterwards did not (a lock is still held)"
+	}
+	return h, fmt.Sprintf("deadlock: %s within %v: %s; log level %s; the delivering goroutine is stuck inside the correlator, nothing after this operation is processed",
+		what, waited.Round(time.Second), op, logLevelOf(h.Debug))
+}
+
+// seqHangReporter: the watchdog handler of the generating drivers (random and exhaustive histories): the hang is an
+// oracle failure with the history as replay; what was gathered so far is written and the process ends (it is
+// poisoned: a goroutine sits inside the correlator holding its locks).
+func seqHangReporter(sum *hutil.Summary, cases *hutil.CaseFile, out string) func(any, int, string, time.Duration) {
+	return func(ctx any, call int, phase string, waited time.Duration) {
+		h, what := describeHang(ctx, call, phase, waited)
+		sum.FailKey("oracle", keyDeadlock, what, map[string]any{"history": h, "detail": map[string]any{"op": call, "phase": phase}})
+		sum.Notes = append(sum.Notes, "the run was cut short: a correlator call did not return (process poisoned, exploration stopped)")
+		cases.Flush()
+		sum.CaseFiles = cases.Files
+		sum.Write(out)
+		os.Exit(0)
+	}
 }
 
 // ---------- Coq rendering (compact format of Model/TrackerCheck.v) ----------
@@ -498,6 +565,7 @@ func main() {
 		Footer: func(int) string {
 			return "Definition M := Eval vm_compute in mismatches cases.\nPrint M.\nDefinition B := Eval vm_compute in first_bad cases.\nPrint B.\n"
 		}}
+	seqWatchdog = hutil.NewWatchdog(seqHangReporter(sum, cases, *out))
 	modes := modesFor(*prop)
 	for i := 0; i < *n; i++ {
 		m := modes[i%len(modes)]
@@ -625,6 +693,12 @@ func doReplay(path, prop string) int {
 		return 2
 	}
 	h := *rp.Replay.History
+	// the same watchdog as in the generating run: a call that still does not return reproduces the failure
+	seqWatchdog = hutil.NewWatchdog(func(ctx any, call int, phase string, waited time.Duration) {
+		_, what := describeHang(ctx, call, phase, waited)
+		fmt.Printf("REPRODUCED %s: %s\n", keyDeadlock, what)
+		os.Exit(1)
+	})
 	rn := newRunner(h)
 	res := rn.run()
 	if res.Err != "" {
